@@ -238,6 +238,22 @@ def run(ctx):
                 r = e2e.traced_run(cfgv)
                 if not same_result(ref, r):
                     ctx.violation("monitor", "end to end: %s changes the result (%s vs %s)" % (name, ref["error"], r["error"]), {"cfg": {k: (v if not isinstance(v, np.ndarray) else "array") for k, v in cfgv.items()}, "form": name})
+        # (e) joint runs whose regime changes exactly at the series boundaries (a short series of another regime between two long
+        #     ones): whether the labels switch there is decided by what the pairs AT the boundaries cost, so a front end that
+        #     treats those pairs differently for one number than for the vector filled with it gives two different answers
+        for j, bval in enumerate([30.0, 400.0, 3.0][: ctx.budget(2, 3)]):
+            b = dict(base, N=3, W=3, K=2, beta=bval, limit=6, m=5, joint=True, lengths=[80, 14, 80], series_regimes=[0, 1, 0],
+                     data_seed=31 + j, rng_seed=31 + j, scale=0.6)
+            T = sum(t - b["W"] + 1 for t in b["lengths"])
+            ref = e2e.traced_run(b)
+            for name, cfgv in [("beta as filled vector", dict(b, beta=np.full(T, bval))), ("beta as filled float32 vector", dict(b, beta=np.full(T, bval, dtype=np.float32))),
+                               ("beta as np.float64 scalar", dict(b, beta=np.float64(bval)))]:
+                ctx.count("e2e-boundary-form")
+                ctx.mark_nontrivial(("boundary", j, name))
+                r = e2e.traced_run(cfgv)
+                if not same_result(ref, r):
+                    ctx.violation("monitor", "end to end, joint run with regime changes at the series boundaries: %s changes the result (%s vs %s)" % (name, ref["error"], r["error"]),
+                                  {"cfg": {k: (v if not isinstance(v, np.ndarray) else "array") for k, v in cfgv.items()}, "form": name})
     core.anchored_check(ctx, ANCHORS, cov, ignore=("raise ValueError", "Lambda parameter", "either a float"))
     ctx.sample({"kind": "lam_matrix", "case": cases["lam_matrix"][0][1]})
     ctx.sample({"kind": "entry-point", "N,W,lam": [1, 6, 0.7]})
